@@ -30,7 +30,7 @@ func floatParamsTLA(c *core.Ctx) string {
 		exps2 = []int{-1074, -1073, -1022, -53, -2, -1, 0, 1, 31, 32, 53, 1000}
 	} else {
 		mants = []int{1, 3, 5, 255, 1048575, 1<<30 - 1}
-		exps = []int{-1074, -1073, -1024, -1023, -1022, -53, -32, -31, -30, -2, -1, 0, 1, 2, 29, 30, 31, 32, 52, 53, 970, 1023}
+		exps = []int{-1074, -1073, -1024, -1022, -53, -31, -30, -2, -1, 0, 1, 30, 31, 32, 52, 53, 1023}
 		mants2 = []int{1, 3, 1023}
 		exps2 = []int{-1074, -1, 0, 1, 32, 1000}
 	}
@@ -507,12 +507,12 @@ func runFloat(c *core.Ctx, pool *gjs.Pool) bool {
 			c.Infra(fmt.Errorf("reference toolchain rejected the math table program: %s", b.NativeErr))
 			return
 		}
-		if len(b.Native.Lines) != ch.n || b.Native.End != "exit" {
+		if len(b.Native.Lines) != ch.n || !endedOK(b.Native) {
 			c.Infra(fmt.Errorf("native math program printed %d lines, want %d (end=%s %s)", len(b.Native.Lines), ch.n, b.Native.End, b.Native.Msg))
 			return
 		}
 		c.Add("programs", 2)
-		if len(b.JS.Lines) != ch.n || b.JS.End != "exit" {
+		if len(b.JS.Lines) != ch.n || !endedOK(b.JS) {
 			col.fail(&failure{group: "float-js-abort", keys: []string{"math_program_aborted"},
 				summary: fmt.Sprintf("the math table program compiled by GopherJS printed %d lines, want %d; end=%s msg=%s", len(b.JS.Lines), ch.n, b.JS.End, b.JS.Msg), files: prog.ReplayFiles("prog")})
 			return
